@@ -1072,9 +1072,9 @@ func TestVerifC04Mutations(t *testing.T) {
 	c.Assume("the consensus version used has small committee sizes; everything else equals the current version")
 	avv := MakeAsyncVoteVerifier(nil)
 	defer avv.Quit()
-	ncases := c.N(60, 1500)
+	ncases := c.N(60, 3000)
 	if c.Lane == "asan" { // same cases, fewer of them: the sanitizer build is several times slower
-		ncases = c.N(20, 300)
+		ncases = c.N(20, 800)
 	}
 	st := &c04Stats{}
 	scratch := c.Scratch("cases")
